@@ -1,6 +1,6 @@
 (* C14 — upload slots are bounded and follow the choking policy. *)
 From Coq Require Import Permutation.
-From Rdest Require Import Base Consts Wire Manager MgrProofs Handler Stats HStats Corr.Stats StatsProofs HStatsProofs.
+From Rdest Require Import Base Consts Wire Manager MgrProofs Handler HandlerProofs Stats HStats Corr.Stats StatsProofs HStatsProofs.
 Open Scope N_scope.
 Definition acts_of_outcome (o : outcome) : list action := match o with HCont _ a | HEnd _ a _ | HPanic a => a end.
 
@@ -105,6 +105,8 @@ Proof. vm_compute. split; reflexivity. Qed.
 Example C14_slots_pinned : MAX_UNCHOKED = 10 /\ MAX_OPTIMISTIC = 1 /\ MAX_OPTIMISTIC_ROUNDS = 3. Proof. repeat split; reflexivity. Qed.
 
 (* What the "measured rate" measures (HStats.v: the statistics call sites of the connection task; Stats.v: the counters).
+   (The first two statements unfold the projection HStats.stats_ops for arbitrary action lists -- it is tied to the code
+   by the correspondence part C14Rates; the following ones are about the task's steps.)
    Counted as uploaded are exactly the payload bytes of the piece messages written; a block counts as downloaded exactly
    when it answers an outstanding request of the piece being assembled, any other one is refused, counted as unexpected
    and changes nothing; and over a connection's whole life every report is the mean over the last two 10 s intervals of
@@ -115,6 +117,18 @@ Theorem C14_rate_block_counted : forall s i b blk acts,
   sum_down (stats_ops s (EFrame (Piece i b blk)) acts) =
   if piece_reaches_handler s && match h_rx s with Some r => is_requested r i b blk | None => false end then len blk else 0.
 Proof. exact block_counted. Qed.
+(* ... and about the task's own steps (hstep), whatever the manager answers: a Piece frame moves exactly one counter;
+   nothing but the answer to a Request frame counts as uploaded (piece messages are written only there: actions_ok) *)
+Theorem C14_rate_task_block_counted : forall sha1 cf disk ovf s i b blk r,
+  stats_ops s (EFrame (Piece i b blk)) (acts_of (hstep sha1 cf disk ovf s (EFrame (Piece i b blk)) r)) =
+  if piece_reaches_handler s then
+    (if match h_rx s with Some rx => is_requested rx i b blk | None => false end then [SDown (len blk)] else [SUnexpected])
+  else [].
+Proof. exact task_block_counted. Qed.
+Theorem C14_rate_no_upload_without_request : forall sha1 cf disk ovf s ev r,
+  (forall ri rb rl, ev <> EFrame (Request ri rb rl)) ->
+  sum_up (stats_ops s ev (acts_of (hstep sha1 cf disk ovf s ev r))) = 0.
+Proof. exact no_upload_without_request. Qed.
 Theorem C14_rate_refused_block : forall sha1 cf disk ovf s i b blk rep,
   piece_reaches_handler s = true ->
   match h_rx s with Some r => is_requested r i b blk | None => false end = false ->
@@ -138,5 +152,7 @@ Print Assumptions C14_timer_tick_quiet.
 Print Assumptions C14_timer_tick_bound.
 Print Assumptions C14_rate_uploads_counted.
 Print Assumptions C14_rate_block_counted.
+Print Assumptions C14_rate_task_block_counted.
+Print Assumptions C14_rate_no_upload_without_request.
 Print Assumptions C14_rate_refused_block.
 Print Assumptions C14_rate_reports_exact.
